@@ -871,6 +871,20 @@ func (env *SpecEnv) call(e *SExpr) Val {
 		// iface(p): the interface value holding pointer p (static type of p gives the tag)
 		v := arg(0)
 		return Val{T: fmt.Sprintf("(mk_iface %d %s)", reg.TypeTag(v.GT), v.T), S: SIface}
+	case "ser", "serok":
+		// ser(v, "T"): the bytes serialize.Serializer.Serialize produces for the value v of Go type T (a function of the value,
+		// T-SER); serok(v, "T"): whether that serialisation succeeds (also a function of the value)
+		v := arg(0)
+		st := env.resolveType(e.Args[1].Name)
+		if st.GT == nil {
+			env.fail("%s: not a Go type: %s", e.Name, e.Args[1].Name)
+		}
+		if e.Name == "serok" {
+			fn := reg.UFun("serok_"+sortTag(st.S)+"_"+hashName(types.TypeString(st.GT, nil)), []Sort{st.S}, SBool)
+			return Val{T: app(fn, v.T), S: SBool}
+		}
+		fn := reg.UFun("ser_"+sortTag(st.S)+"_"+hashName(types.TypeString(st.GT, nil)), []Sort{st.S}, SBytes)
+		return Val{T: app(fn, v.T), S: SBytes}
 	case "unmok", "deserok":
 		// success of the corresponding decode, a function of the bytes
 		d := arg(0)
